@@ -11,6 +11,7 @@ EXPLANATION = (
     "before compound x/y expansion, everything before set_position_attrs); a <point> becomes `^` before its own box is "
     "discarded; no min/max of an operand with itself in the bounding-box code. Undecided - the core of the statement: gaps, "
     "centring, percent and negative offsets, dx/dy, exactness up to rounding."
+    " Beyond the selection wiring, A17 (affine abstract evaluation of the typed HIR against policy/spec/geometry_algebra.json) decides as exact term identities: |h |H |v |V placement, the 13 locspec locations, calc_offset, the 11 scalarspec values, Length::evaluate/adjust, size and box of each shape; dx/dy never cross axes (shared with C11). Undecided: float rounding, tokenisers, the reference-chain fix-point."
 )
 TRUSTED = []
 ASSUMPTIONS = []
